@@ -479,6 +479,8 @@ def c03(tier, rng, fam='C03'):
             b.q()
             b.step('adv', ms=60)
             out.append(b.q().done())
+    # a unary handler that returns nil with a reply the codec refuses: whatever the server makes of it, not a success
+    out += [x for x in _g2.unencodable_elsewhere(fam) if 'unencodable reply' in x['tag']]
     return out
 
 
